@@ -30,6 +30,12 @@ pub enum Case {
         /// at 2^64-1 this leaves the receiver exhausted
         #[serde(default)]
         pos: Option<u64>,
+        /// overrides `enc` with a value related to the session's own keys (what a remote party can
+        /// always send): 1 = the expected sender key pkS, 2 = the recipient's own public key,
+        /// 3 = the same-DH twin of pkS (NIST: negated point, X25519: bit 255 set), 4 = the generator,
+        /// 5 = the same-DH twin of the recipient's key
+        #[serde(default)]
+        enc_rel: u8,
     },
     /// the sender is set up against arbitrary recipient-key bytes with long info/aad, then seals
     Sender { sess: Session, pk_r: Option<Bytes>, pt: Bytes, aad: Bytes },
@@ -96,7 +102,7 @@ fn check_inner(case: &Case, obs: &mut Obs) -> Result<(), Verdict> {
             }
             Ok(())
         }
-        Case::Receiver { sess, enc, pk_s, ct, aad, tag, pos } => {
+        Case::Receiver { sess, enc, pk_s, ct, aad, tag, pos, enc_rel } => {
             obs.label("entry:setup_receiver+open");
             labels_for(sess, obs);
             let d = dsuite(sess);
@@ -105,6 +111,36 @@ fn check_inner(case: &Case, obs: &mut Obs) -> Result<(), Verdict> {
             obs.label(if ct.len() < nt { "ct:shorter-than-tag" } else if ct.len() == nt { "ct:exactly-tag" } else { "ct:longer" });
             // honest encapsulation unless the case supplies attacker bytes
             let mut honest_snd = None;
+            let related: Option<Vec<u8>> = {
+                let kem = sess.suite.kem;
+                let pks = if keys.pk_s.is_empty() { crate::gen::ref_keypair(kem, &sess.ikm_s).1 } else { keys.pk_s.clone() };
+                match enc_rel {
+                    1 => Some(pks),
+                    2 => Some(keys.pk_r.clone()),
+                    3 => super::c07::same_dh_encoding(kem, &pks),
+                    4 => {
+                        let mut one = vec![0u8; kem.nsk()];
+                        match kem.curve() {
+                            Some(c) => {
+                                one[kem.nsk() - 1] = 1;
+                                c.base_mul_sec1(&one)
+                            }
+                            None => {
+                                let mut g = vec![0u8; 32];
+                                g[0] = 9;
+                                Some(g)
+                            }
+                        }
+                    }
+                    5 => super::c07::same_dh_encoding(kem, &keys.pk_r),
+                    _ => None,
+                }
+            };
+            if related.is_some() {
+                obs.label(format!("enc-related-to-session-key:{}", enc_rel));
+            }
+            let enc_owned = related.map(Bytes).or_else(|| enc.clone());
+            let enc = &enc_owned;
             let enc_bytes = match enc {
                 Some(e) => e.0.clone(),
                 None => match honest_sender(d, sess, &keys) {
@@ -266,7 +302,7 @@ impl Property for P {
     }
     fn rule(&self) -> String {
         "Generated, for every sealing suite x mode: arbitrary bytes into every from_bytes; PskBundle::new; setup_receiver with attacker-shaped encapsulated keys and sender keys (right length, real key with a flipped bit, arbitrary length, empty); open / open_in_place_detached / single_shot_open / single_shot_open_in_place_detached with ciphertexts of length 0, 1, Nt-1, Nt, Nt+1, block boundaries, 64 KiB+ (thorough: 1 MiB) and arbitrary tag bytes; setup_sender against attacker-shaped recipient keys with info/aad up to 64 KiB+; export lengths 0..=70000 with long contexts; derive_keypair with arbitrary ikm. \
-         Receivers are optionally placed at a sequence position (hook) and handed one honest message first, so that attacker bytes also reach an exhausted context; 10% of the sessions use the empty PSK bundle in a PSK mode. Swept: every ciphertext length 0..=Nt+17 x 36 suites (mode rotating) on a fresh and on a just-exhausted receiver, with the empty bundle for every 8th length; every key length 0..=2*size+2 for all 16 types. \
+         Receivers are optionally placed at a sequence position (hook) and handed one honest message first, so that attacker bytes also reach an exhausted context; 10% of the sessions use the empty PSK bundle in a PSK mode; the encapsulated key may be a value related to the session's own keys (the expected sender key, the recipient's own key, their same-DH twins, the generator). Swept: every ciphertext length 0..=Nt+17 x 36 suites (mode rotating) on a fresh and on a just-exhausted receiver, with the empty bundle for every 8th length; every key length 0..=2*size+2 for all 16 types. \
          Oracle: under catch_unwind, with debug assertions and overflow checks compiled in: no panic; errors only from the allowed set per entry point (deserialisers: IncorrectInputLength/ValidationError; setup_sender: EncapError; setup_receiver: DecapError; open: OpenError/MessageLimitReached; seal: SealError/MessageLimitReached; export: KdfOutputTooLong; PskBundle::new: InvalidPskBundle). \
          Non-trivial: inputs that get past the first length check plus the short/empty ciphertext class. Excluded: write_exact with a wrong-size buffer and export-only seal/open (documented caller-side panics)."
             .into()
@@ -289,9 +325,9 @@ impl Property for P {
                 3 => big_bytes(t),
             ];
             let pos = proptest::option::weighted(0.35, prop_oneof![2 => (0u64..3).prop_map(|d| u64::MAX - d), 1 => gen::position()]);
-            (Just(sess), proptest::option::weighted(0.5, keyish(kem)), proptest::option::weighted(0.3, keyish(kem)), ct, big_bytes(t), prop_oneof![4 => gen::bytes_exact(16), 1 => gen::bytes(40)], pos, prop::bool::weighted(0.1))
+            (Just(sess), proptest::option::weighted(0.5, keyish(kem)), proptest::option::weighted(0.3, keyish(kem)), ct, big_bytes(t), prop_oneof![4 => gen::bytes_exact(16), 1 => gen::bytes(40)], pos, prop::bool::weighted(0.1), prop_oneof![5 => Just(0u8), 1 => 1u8..=5])
         })
-        .prop_map(|(mut sess, enc, pk_s, ct, aad, tag, pos, empty_bundle)| {
+        .prop_map(|(mut sess, enc, pk_s, ct, aad, tag, pos, empty_bundle, enc_rel)| {
             if pk_s.is_some() {
                 sess.mode |= 2;
             }
@@ -300,7 +336,7 @@ impl Property for P {
                 sess.psk = Bytes::default();
                 sess.psk_id = Bytes::default();
             }
-            Case::Receiver { sess, enc, pk_s, ct, aad, tag, pos }
+            Case::Receiver { sess, enc, pk_s, ct, aad, tag, pos, enc_rel }
         });
         let sender = gen::session_sealing()
             .prop_flat_map(move |sess| {
@@ -327,14 +363,14 @@ impl Property for P {
         for (i, s) in Suite::sealing36().into_iter().enumerate() {
             for len in 0..=(16 + 17) {
                 let sess = gen::cell_session(s, ((i + len) % 4) as u8, 13);
-                cts.push(Case::Receiver { sess: sess.clone(), enc: None, pk_s: None, ct: Bytes(gen::fill(len, 9, len as u64)), aad: Bytes(vec![]), tag: Bytes(gen::fill(16, 9, 1)), pos: None });
+                cts.push(Case::Receiver { sess: sess.clone(), enc: None, pk_s: None, ct: Bytes(gen::fill(len, 9, len as u64)), aad: Bytes(vec![]), tag: Bytes(gen::fill(16, 9, 1)), pos: None, enc_rel: 0 });
                 // the same on a receiver that has just been exhausted, and with the empty PSK bundle
-                cts.push(Case::Receiver { sess: sess.clone(), enc: None, pk_s: None, ct: Bytes(gen::fill(len, 9, len as u64)), aad: Bytes(vec![]), tag: Bytes(gen::fill(16, 9, 1)), pos: Some(u64::MAX) });
+                cts.push(Case::Receiver { sess: sess.clone(), enc: None, pk_s: None, ct: Bytes(gen::fill(len, 9, len as u64)), aad: Bytes(vec![]), tag: Bytes(gen::fill(16, 9, 1)), pos: Some(u64::MAX), enc_rel: 0 });
                 if len % 8 == 0 {
                     let mut e = sess.clone();
                     e.psk = Bytes::default();
                     e.psk_id = Bytes::default();
-                    cts.push(Case::Receiver { sess: e.clone(), enc: None, pk_s: None, ct: Bytes(gen::fill(len, 9, len as u64)), aad: Bytes(vec![]), tag: Bytes(gen::fill(16, 9, 1)), pos: None });
+                    cts.push(Case::Receiver { sess: e.clone(), enc: None, pk_s: None, ct: Bytes(gen::fill(len, 9, len as u64)), aad: Bytes(vec![]), tag: Bytes(gen::fill(16, 9, 1)), pos: None, enc_rel: 0 });
                     cts.push(Case::Sender { sess: e, pk_r: None, pt: Bytes(gen::fill(len, 9, 3)), aad: Bytes(vec![]) });
                 }
             }
@@ -344,9 +380,17 @@ impl Property for P {
             for mode in 0..4u8 {
                 let s = Suite { kem: KemId::X25519, kdf: KdfId::Sha256, aead: AeadId::SEALING[i % 3] };
                 let ct = Bytes(gen::fill(40, 9, i as u64));
-                small.push(Case::Receiver { sess: gen::cell_session(s, mode, 13), enc: Some(Bytes(u.to_vec())), pk_s: None, ct: ct.clone(), aad: Bytes(vec![]), tag: Bytes(gen::fill(16, 9, 2)), pos: None });
-                small.push(Case::Receiver { sess: gen::cell_session(s, mode | 2, 13), enc: None, pk_s: Some(Bytes(u.to_vec())), ct: ct.clone(), aad: Bytes(vec![]), tag: Bytes(gen::fill(16, 9, 2)), pos: None });
+                small.push(Case::Receiver { sess: gen::cell_session(s, mode, 13), enc: Some(Bytes(u.to_vec())), pk_s: None, ct: ct.clone(), aad: Bytes(vec![]), tag: Bytes(gen::fill(16, 9, 2)), pos: None, enc_rel: 0 });
+                small.push(Case::Receiver { sess: gen::cell_session(s, mode | 2, 13), enc: None, pk_s: Some(Bytes(u.to_vec())), ct: ct.clone(), aad: Bytes(vec![]), tag: Bytes(gen::fill(16, 9, 2)), pos: None, enc_rel: 0 });
                 small.push(Case::Sender { sess: gen::cell_session(s, mode, 13), pk_r: Some(Bytes(u.to_vec())), pt: Bytes(b"pt".to_vec()), aad: Bytes(vec![]) });
+            }
+        }
+        for kem in KemId::ALL {
+            for mode in 0..4u8 {
+                for rel in 1..=5u8 {
+                    let s = Suite { kem, kdf: kem.kdf(), aead: AeadId::SEALING[(rel % 3) as usize] };
+                    small.push(Case::Receiver { sess: gen::cell_session(s, mode, 131), enc: None, pk_s: None, ct: Bytes(gen::fill(33, 9, rel as u64)), aad: Bytes(vec![]), tag: Bytes(gen::fill(16, 9, 2)), pos: None, enc_rel: rel });
+                }
             }
         }
         let mut keys = Vec::new();
@@ -368,7 +412,7 @@ impl Property for P {
                 keys.push(Case::FromBytes { kem: KemId::X25519, aead, kind: SerKind::Tag, bytes: Bytes(gen::fill(len, 9, 5)) });
             }
         }
-        vec![("every_ciphertext_length_0_to_Nt_plus_17_x_36_suites".into(), cts), ("every_key_length_all_types".into(), keys), ("x25519_small_order_keys_every_role_and_mode".into(), small)]
+        vec![("every_ciphertext_length_0_to_Nt_plus_17_x_36_suites".into(), cts), ("every_key_length_all_types".into(), keys), ("small_order_and_session_related_keys_every_role_and_mode".into(), small)]
     }
     fn check(&self, case: &Case, obs: &mut Obs) -> Verdict {
         check(case, obs)
